@@ -1,31 +1,28 @@
 #!/bin/sh
 # usage: tools/confirm_seed.sh <seed dir with patch.diff demo/run.sh> <name>
-# Confirms a seeded change by hand-independent means, in scratch worktrees under /tmp/confirm:
+# Confirms a seeded change independently of the sub-agent that wrote it, on a scratch copy of /repo that
+# is mounted at /repo in a private mount namespace (so the warm target directory stays valid):
 #   1. the patch applies to /repo's HEAD,  2. the repository's whole test suite passes with it,
-#   3. the demonstration passes on the unchanged tree and fails with the patch.
-# Prints a summary and writes <seed dir>/confirm.log.  Removes its worktrees afterwards.
+#   3. the demonstration passes on the unchanged tree (/tmp/wt/base, a pristine copy) and fails with the patch.
+# Writes <seed dir>/confirm.log, prints one summary line, removes the scratch copy.
 set -u
 S="$(readlink -f "$1")"; N="$2"
-B=/tmp/confirm/base; M=/tmp/confirm/$N
-mkdir -p /tmp/confirm
+M=/tmp/confirm/$N
+mkdir -p /tmp/confirm; rm -rf "$M"
 export CARGO_NET_OFFLINE=true
-if [ ! -d "$B" ]; then
-  git -C /repo worktree add --detach "$B" HEAD >/dev/null 2>&1
-  cp -a /repo/target "$B/target"; cp -a /repo/eqlog-eqlog/prebuilt/eqlog.rs "$B/eqlog-eqlog/prebuilt/eqlog.rs"
-fi
-git -C /repo worktree remove --force "$M" >/dev/null 2>&1; rm -rf "$M"
-git -C /repo worktree add --detach "$M" HEAD >/dev/null 2>&1
-cp -a /repo/eqlog-eqlog/prebuilt/eqlog.rs "$M/eqlog-eqlog/prebuilt/eqlog.rs"
-( cd "$M" && git apply "$S/patch.diff" ) || { echo "$N: PATCH DOES NOT APPLY"; git -C /repo worktree remove --force "$M"; exit 2; }
-cp -a /repo/target "$M/target"
+[ -d /tmp/wt/base ] || rsync -a --exclude=/target/debug/incremental /repo/ /tmp/wt/base/
+rsync -a --exclude=/target/debug/incremental /repo/ "$M/"
+( cd "$M" && git apply "$S/patch.diff" ) || { echo "$N: PATCH DOES NOT APPLY"; rm -rf "$M"; exit 2; }
 L="$S/confirm.log"; : > "$L"
-( cd "$M" && cargo test --workspace --no-fail-fast --offline ) >> "$L" 2>&1; trc=$?
-passed=$(grep -E "^test result:" "$L" | sed -E 's/.* ([0-9]+) passed.*/\1/' | paste -sd+ | bc)
-failed=$(grep -E "^test result:" "$L" | sed -E 's/.* ([0-9]+) failed.*/\1/' | paste -sd+ | bc)
-echo "--- demo on unchanged tree" >> "$L"
-( cd "$S/demo" && sh ./run.sh "$B" ) >> "$L" 2>&1; d0=$?
-echo "--- demo on patched tree" >> "$L"
-( cd "$S/demo" && sh ./run.sh "$M" ) >> "$L" 2>&1; d1=$?
+run_tests() { /tmp/inrepo.sh "$M" cargo test --workspace --no-fail-fast --offline > "$S/confirm_tests.log" 2>&1; }
+run_tests; trc=$?
+if [ $trc != 0 ] && grep -q "Failed to find eqlog runtime rlib" "$S/confirm_tests.log"; then run_tests; trc=$?; fi
+passed=$(grep -E "^test result:" "$S/confirm_tests.log" | sed -E 's/.* ([0-9]+) passed.*/\1/' | paste -sd+ | bc)
+failed=$(grep -E "^test result:" "$S/confirm_tests.log" | sed -E 's/.* ([0-9]+) failed.*/\1/' | paste -sd+ | bc)
+echo "--- demo on the unchanged tree" >> "$L"
+( cd "$S/demo" && timeout 7200 /tmp/inrepo.sh /tmp/wt/base sh "$S/demo/run.sh" /repo ) >> "$L" 2>&1; d0=$?
+echo "--- demo on the patched tree" >> "$L"
+( cd "$S/demo" && timeout 7200 /tmp/inrepo.sh "$M" sh "$S/demo/run.sh" /repo ) >> "$L" 2>&1; d1=$?
 echo "$N: tests rc=$trc passed=$passed failed=$failed | demo unchanged rc=$d0 | demo patched rc=$d1" | tee -a "$L"
-git -C /repo worktree remove --force "$M" >/dev/null 2>&1; rm -rf "$M"
-if [ "$trc" = 0 ] && [ "$d0" = 0 ] && [ "$d1" != 0 ]; then echo "$N: CONFIRMED"; exit 0; else echo "$N: NOT CONFIRMED"; exit 1; fi
+rm -rf "$M"
+if [ "$trc" = 0 ] && [ "$passed" = 184 ] && [ "$d0" = 0 ] && [ "$d1" != 0 ]; then echo "$N: CONFIRMED" | tee -a "$L"; exit 0; else echo "$N: NOT CONFIRMED" | tee -a "$L"; exit 1; fi
